@@ -76,39 +76,35 @@ theorem transform_nothing_selected (r : Rec N) (p u : Node N) (d : Option (Node 
 
 /-! ### regenerated facts -/
 
-/-- every reflect / sort / rand mutator call site, with the reason its receiver is not the
-    caller's data -/
+/-- every reflect / sort / rand / big mutator call site, keyed by (file, receiver type of the
+    enclosing method, receiver kind + method) — `local` = a value made in the calling function —
+    with the reason its receiver is not the caller's data -/
 def allowedMutators : List (String × String × String) := [
-  ("eval.go", "evalPath", "output.Index(0).Set"),          -- output = MakeSlice in this call
-  ("eval.go", "evalRange", "results.Index(i).Set"),        -- results = MakeSlice in this call
-  ("eval.go", "evalObject", "items.Index(i).Set"),         -- items = MakeSlice in this call
-  ("eval.go", "evalSort", "sort.SliceStable"),             -- sorts the fresh sortinfo slice
-  ("eval.go", "evalSort", "results.Index(i).Set"),         -- results = MakeSlice in this call
-  ("eval.go", "makeArray", "arr.Index(0).Set"),            -- arr = MakeSlice in this call
-  ("callable.go", "processOptionalArg", "opt.Set"),        -- opt = reflect.New in this call
-  ("callable.go", "transformationCallable.updateEntries", "item.SetMapIndex"),  -- item belongs to the clone (ownership check)
-  ("callable.go", "transformationCallable.deleteEntries", "item.SetMapIndex"),
-  ("jlib/array.go", "sortNumberArray", "sort.SliceStable"),   -- results = make in this call
-  ("jlib/array.go", "sortStringArray", "sort.SliceStable"),
-  ("jlib/array.go", "Shuffle", "rand.Intn"),
-  ("jlib/number.go", "Round", "new(big.Rat).SetString"),     -- a big.Rat allocated in this call
-  ("jlib/number.go", "Round", "new(big.Rat).SetInt"),
-  ("jlib/number.go", "Round", "v.SetInt"),                    -- v = new(big.Rat) in this call
-  ("jlib/number.go", "Random", "rand.Float64"),
-  ("jlib/jlib.go", "init", "rand.Seed")]
+  ("eval.go", "", "local.Set"),                      -- element of a slice made by MakeSlice in this call
+  ("eval.go", "", "alias:param:reflect.Value.Set"),  -- evalPath/evalObject: the variable is reassigned to a MakeSlice before the write
+  ("eval.go", "", "sort.SliceStable"),               -- sorts the fresh sortinfo slice
+  ("callable.go", "", "local.Set"),                  -- opt = reflect.New in this call
+  ("callable.go", "transformationCallable", "param:reflect.Value.SetMapIndex"),  -- the object belongs to the clone (ownership check)
+  ("jlib/array.go", "", "sort.SliceStable"),         -- results = make in this call
+  ("jlib/array.go", "", "rand.Intn"),
+  ("jlib/number.go", "", "local.SetString"),         -- a big.Rat allocated in this call
+  ("jlib/number.go", "", "local.SetInt"),
+  ("jlib/number.go", "", "rand.Float64"),
+  ("jlib/jlib.go", "", "rand.Seed")]
 
 theorem fact_mutators_accounted :
     Generated.mutatorCalls.all (fun w => allowedMutators.contains w) = true := by decide
 
-/-- maps are written only by the two transform helpers -/
+/-- maps are written only by methods of the transform callable -/
 theorem fact_map_writes_only_in_transform :
-    (Generated.mutatorCalls.filter (fun w => w.2.2 == "item.SetMapIndex")).map (·.2.1) =
-      ["transformationCallable.updateEntries", "transformationCallable.deleteEntries"] := by decide
+    (Generated.mutatorCalls.filter (fun w => "SetMapIndex".toList.isSuffixOf w.2.2.toList)).map (·.2.1) =
+      ["transformationCallable"] := by decide
 
 def idx (e : String) (l : List String) : Nat := l.findIdx (· == e)
 
 /-- the transform clones its argument before it evaluates the pattern, computes the set of
-    objects owned by the clone before it writes, and only then updates and deletes -/
+    objects owned by the clone before it writes, and only then updates and deletes (trace
+    inlined through package-local helpers) -/
 theorem fact_transform_order :
     let ev := Generated.transformCallEvents
     idx "call:validateArgs" ev < idx "call:clone" ev ∧
@@ -116,6 +112,7 @@ theorem fact_transform_order :
     idx "call:eval" ev < idx "call:collectMaps" ev ∧
     idx "call:collectMaps" ev < idx "call:updateEntries" ev ∧
     idx "call:updateEntries" ev < idx "call:deleteEntries" ev ∧
+    idx "call:collectMaps" ev < idx "call:SetMapIndex" ev ∧
     ev.contains "call:Pointer" = true := by decide
 
 end Jsonata.Props.C07
